@@ -466,10 +466,10 @@ func checkC16(r *vlib.Run) int {
 		// "discards every uncorrelated one older than the cut-off" while the correlator is busy with another session
 		{Name: "Q5 login,login'; (noise;noise;cleanup || rec';ev'x4); rec;ev", Plan: p2, Pre: []HOp{{Kind: opLogin, K: 0}, {Kind: opLogin, K: 1}},
 			Threads: [][]HOp{{{Kind: opUnknown}, {Kind: opUnknown}, cl}, {{Kind: opRec, K: 1}, {Kind: opEv, K: 1}, {Kind: opEv, K: 1}, {Kind: opEv, K: 1}, {Kind: opEv, K: 1}}},
-			Post: []HOp{{Kind: opRec, K: 0}, {Kind: opEv, K: 0}}},
+			Post:    []HOp{{Kind: opRec, K: 0}, {Kind: opEv, K: 0}}},
 		{Name: "Q6 rec; (noise;cleanup || login';rec';ev';ev'); login;ev", Plan: p2, Pre: []HOp{{Kind: opRec, K: 0}},
 			Threads: [][]HOp{{{Kind: opUnknown}, cl}, {{Kind: opLogin, K: 1}, {Kind: opRec, K: 1}, {Kind: opEv, K: 1}, {Kind: opEv, K: 1}}},
-			Post: []HOp{{Kind: opLogin, K: 0}, {Kind: opEv, K: 0}}},
+			Post:    []HOp{{Kind: opLogin, K: 0}, {Kind: opEv, K: 0}}},
 	}
 	concSched, concFree := 0, 0
 	for _, p := range cprogs {
